@@ -55,7 +55,7 @@ def seed_configs(oport):
                       {"name": "rev", "type": "reverse", "bind": "127.0.0.1:7", "target": "127.0.0.1:%d" % oport}],
         "connectors": [{"name": "direct"}, {"name": "lb", "type": "loadbalance", "connectors": ["direct"], "algo": "rr"}],
         "rules": [{"filter": "request.target.port >= 1", "target": "lb"}, {"target": "direct"}],
-        "metrics": {"bind": "127.0.0.1:1", "ui": None, "historySize": 10},
+        "metrics": {"bind": "127.0.0.1:1", "ui": None, "historySize": 10, "apiPrefix": "/api", "cors": "*"},
         "accessLog": {"path": "access.log", "format": {"script": "`${request.listener} ${request.source} ${request.target} ${request.feature}`"}},
     }
     return [("shipped", shipped), ("small", small)]
@@ -330,7 +330,9 @@ async def main(args):
     out.setx("verdicts", verdicts)
     # ---- accepted => runs
     rng.shuffle(accepted)
-    prio = [a for a in accepted if a[3] not in ("retype", "delete", "duplicate")]
+    # targeted mutants first, then everything that touches the sections only used when the proxy really starts (metrics server,
+    # access log), then a sample of the rest
+    prio = [a for a in accepted if a[3] not in ("retype", "delete", "duplicate") or ": metrics/" in a[1] or ": accessLog/" in a[1]]
     rest = [a for a in accepted if a not in prio]
     todo = prio + rest[:(300 if args.thorough else 25)]
     sem2 = asyncio.Semaphore(8)
